@@ -489,7 +489,7 @@ def snapshots(snaps):
         yield
 
 
-def run_case(cfg, k, k2, seed, n_total, which="all"):
+def run_case(cfg, k, k2, seed, n_total, which="all", n_total_resume=None):
     """one writer run + resume of its checkpoints.  Returns a record of observations (no judgement)."""
     root = tempfile.mkdtemp(prefix="tv08_")
     out = os.path.join(root, "out")
@@ -541,11 +541,11 @@ def run_case(cfg, k, k2, seed, n_total, which="all"):
                 s2 = mk_sampler(cfg, output_dir=out, label=label)
                 try:
                     with snapshots(snaps):
-                        s2.run(n_total=n_total, resume_state_path=path, save_every=k2, progress=False)
+                        s2.run(n_total=(n_total_resume or n_total), resume_state_path=path, save_every=k2, progress=False)
                 except Exception as e:  # noqa
                     r["error"] = f"run(resume_state_path={os.path.basename(path)}) raised {type(e).__name__}: {e}"
                     continue
-                r.update(final=dump_state(s2.state), snaps=snaps, files=_files(out, label), post=_post(s2, n_total),
+                r.update(final=dump_state(s2.state), snaps=snaps, files=_files(out, label), post=_post(s2, n_total_resume or n_total),
                          t0_attr=int(s2._core.t0))
         return rec
     finally:
@@ -592,9 +592,12 @@ def suite_runs(tier, drv):
         k = rng.choice([1, 2, 3]) if j else 2
         k2 = rng.choice([1, 2, 3])
         seed = rng.randrange(2 ** 31)
-        n_total = 96
-        key = dict(cfg=cfg, save_every=k, resume_save_every=k2, seed=seed, n_total=n_total)
-        rec = run_case(cfg, k, k2, seed, n_total)
+        # a larger n_total gives several iterations in the beta = 1 accumulation phase (checkpoints with beta = 1 but ESS < n_total);
+        # every third run is resumed with a LARGER n_total than the one stored in the checkpoint
+        n_total = 96 if j % 2 else 288
+        n_total_resume = 2 * n_total if j % 3 == 0 else None
+        key = dict(cfg=cfg, save_every=k, resume_save_every=k2, seed=seed, n_total=n_total, n_total_resume=n_total_resume)
+        rec = run_case(cfg, k, k2, seed, n_total, n_total_resume=n_total_resume)
         if rec.get("unrelated"):
             c.count("run_fails_also_without_checkpoints")
             continue
@@ -615,7 +618,7 @@ def suite_runs(tier, drv):
             rk = dict(key, checkpoint=r["index"])
             c.case(rk, True)
             c.count("resumed_checkpoints")
-            msg = judge_resume(r, n_total)
+            msg = judge_resume(r, n_total_resume or n_total)
             if msg:
                 c.disagree(input=rk, impl=msg, model="restored prefix kept, numbering/calls continue, postconditions", kind="run", **key)
                 continue
@@ -992,8 +995,8 @@ def oracle_roundtrip(cfg, k, seed):
     return None
 
 
-def oracle_run(cfg, k, k2, seed, n_total, which="all"):
-    rec = run_case(cfg, k, k2, seed, n_total, which)
+def oracle_run(cfg, k, k2, seed, n_total, which="all", n_total_resume=None):
+    rec = run_case(cfg, k, k2, seed, n_total, which, n_total_resume=n_total_resume)
     if rec.get("unrelated"):
         return None
     if rec["error"]:
@@ -1008,7 +1011,7 @@ def oracle_run(cfg, k, k2, seed, n_total, which="all"):
     if not rec["pool_ok"]:
         return "pool lost during a run with save_every"
     for r in rec["resumes"]:
-        msg = judge_resume(r, n_total)
+        msg = judge_resume(r, n_total_resume or n_total)
         if msg:
             return f"checkpoint {r['index']}: {msg}"
         t0 = r["loaded"]["cur"]["iter"][1]
@@ -1054,8 +1057,9 @@ def search(tier, hints):
             if h.get("kind") in ("roundtrip", "pool") and "cfg" in h and "k" in h:
                 add("roundtrip", oracle_roundtrip(h["cfg"], h["k"], h["seed"]), cfg=h["cfg"], k=h["k"], seed=h["seed"])
             elif h.get("kind") == "run" and "save_every" in h:
-                add("run", oracle_run(h["cfg"], h["save_every"], h["resume_save_every"], h["seed"], h["n_total"]),
-                    cfg=h["cfg"], save_every=h["save_every"], resume_save_every=h["resume_save_every"], seed=h["seed"], n_total=h["n_total"])
+                add("run", oracle_run(h["cfg"], h["save_every"], h["resume_save_every"], h["seed"], h["n_total"], n_total_resume=h.get("n_total_resume")),
+                    cfg=h["cfg"], save_every=h["save_every"], resume_save_every=h["resume_save_every"], seed=h["seed"], n_total=h["n_total"],
+                    n_total_resume=h.get("n_total_resume"))
             elif h.get("kind") == "crash" and "point" in h:
                 r = oracle_crash_point(h["cfg"], h["seed"], h["old_checkpoint"], tuple(h["point"]), h["eager"])
                 add("crash", r, cfg=h["cfg"], seed=h["seed"], old_checkpoint=h["old_checkpoint"])
@@ -1125,7 +1129,7 @@ def replay(obj):
     if kind == "roundtrip":
         msg = oracle_roundtrip(f["cfg"], f["k"], f["seed"])
     elif kind == "run":
-        msg = oracle_run(f["cfg"], f["save_every"], f["resume_save_every"], f["seed"], f["n_total"])
+        msg = oracle_run(f["cfg"], f["save_every"], f["resume_save_every"], f["seed"], f["n_total"], n_total_resume=f.get("n_total_resume"))
     elif kind == "crash":
         msg = oracle_crash_point(f["cfg"], f["seed"], f["old_checkpoint"], tuple(f["point"]), f["eager"])
     else:
